@@ -435,11 +435,11 @@ func (g *G) classes() []genClass {
 		}
 		return []genClass{{3, grid}, {4, gridFault}, {3, faults}, {1, sie}, {2, debug(inval)}, {1, debug(status)}}
 	case "C03":
-		return []genClass{{8, urls}, {2, inval}, {1, func(g *G, id string) *History { return g.genRootless(id) }}}
+		return []genClass{{8, urls}, {2, inval}, {1, func(g *G, id string) *History { return g.genRootless(id) }}, {1, func(g *G, id string) *History { return g.genHostOverride(id) }}}
 	case "C04":
 		return []genClass{{8, vary}, {1, faults}, {1, backends}, {1, func(g *G, id string) *History { return g.genCollide(id) }}}
 	case "C07":
-		return []genClass{{7, inval}, {2, urls}, {2, func(g *G, id string) *History { return g.genInvalRace(id) }}, {2, func(g *G, id string) *History { return g.genLocInval(id) }}}
+		return []genClass{{7, inval}, {2, urls}, {2, func(g *G, id string) *History { return g.genInvalRace(id) }}, {2, func(g *G, id string) *History { return g.genLocInval(id) }}, {1, func(g *G, id string) *History { return g.genHostOverride(id) }}}
 	case "C08":
 		return []genClass{{4, vary}, {2, grid}, {3, chain}, {2, inval}, {1, swrInval}, {1, func(g *G, id string) *History { return g.genRevalRace(id) }}, {1, func(g *G, id string) *History { return g.genMerge304(id) }}}
 	case "C19":
@@ -451,7 +451,7 @@ func (g *G) classes() []genClass {
 	case "C20":
 		return []genClass{{8, func(g *G, id string) *History { return g.genSWR(id) }}, {2, grid}, {1, swrInval}}
 	case "C09":
-		return []genClass{{4, urls}, {3, vary}, {3, backends}, {2, chain}, {1, func(g *G, id string) *History { return g.genRootless(id) }}}
+		return []genClass{{4, urls}, {3, vary}, {3, backends}, {2, chain}, {1, func(g *G, id string) *History { return g.genRootless(id) }}, {1, func(g *G, id string) *History { return g.genHostOverride(id) }}}
 	}
 	return []genClass{{1, grid}}
 }
